@@ -31,6 +31,16 @@ func NewEvalUnaryNode(unaryNode *ast.UnaryNode) (*EvalUnaryNode, error) {
 	}, nil
 }
 
+func (n *EvalUnaryNode) copyReset() NodeEvaluator {
+	nodeEvaluator := copyResetNodeEvaluator(n.nodeEvaluator)
+	if nodeEvaluator == n.nodeEvaluator {
+		return n
+	}
+	c := *n
+	c.nodeEvaluator = nodeEvaluator
+	return &c
+}
+
 func isValidUnaryOperator(operator ast.TokenType) bool {
 	return operator == ast.TokenNot || operator == ast.TokenMinus
 }
